@@ -49,6 +49,8 @@ func verifKeys() *vks.Store {
 	}
 	s.AddSym("A", ka)
 	s.AddSym("B", kb)
+	s.HMAC["A"] = []byte("hmac-key-of-client-A-0123456789ab")
+	s.HMAC["B"] = []byte("hmac-key-of-client-B-0123456789ab")
 	for _, id := range []string{"A", "B"} {
 		kp, _ := keys.New(keys.TypeEC)
 		s.AddPair(id, kp)
@@ -59,10 +61,14 @@ func verifKeys() *vks.Store {
 // verifProxy builds the handler exactly as acra-server does: the real proxy factory wires query observers and column
 // subscribers from a table schema (table t: columns id, secret, plain; secret is protected for client A).
 func verifProxy(store *vks.Store, client string, envelope config.CryptoEnvelopeType) (*Handler, context.Context, *sqlparser.Parser) {
-	crypto.InitRegistry(nil)
 	env := envelope
-	schema, err := config.VerifNewStore(true, "t", []string{"id", "secret", "plain"},
-		&config.BasicColumnEncryptionSetting{Name: "secret", UsedClientID: "A", CryptoEnvelope: &env})
+	return verifProxyWith(store, client, &config.BasicColumnEncryptionSetting{Name: "secret", UsedClientID: "A", CryptoEnvelope: &env})
+}
+
+func verifProxyWith(store *vks.Store, client string, setting0 *config.BasicColumnEncryptionSetting) (*Handler, context.Context, *sqlparser.Parser) {
+	crypto.InitRegistry(nil)
+	cp := *setting0
+	schema, err := config.VerifNewStore(true, "t", []string{"id", "secret", "plain"}, &cp)
 	if err != nil {
 		panic("schema: " + err.Error())
 	}
@@ -221,4 +227,84 @@ func VerifC04_MySQLUncoveredRowValue() {
 	}
 	verif.Assert(len(out) == len(row), "uncovered-row-same-length")
 	verif.Assert(verif.Eq(out, row), "uncovered-row-unchanged")
+}
+
+
+// verifStoredHexLiteral returns what the first X'..' literal of a forwarded statement denotes.
+func verifStoredHexLiteral(fwd string) ([]byte, bool) {
+	start := strings.Index(fwd, "X'")
+	if start < 0 {
+		return nil, false
+	}
+	end := strings.Index(fwd[start+2:], "'")
+	if end < 0 {
+		return nil, false
+	}
+	b, err := hex.DecodeString(fwd[start+2 : start+2+end])
+	return b, err == nil
+}
+
+// verifHexNumber returns what the first 0x... number of a forwarded statement denotes.
+func verifHexNumber(fwd string) ([]byte, bool) {
+	start := strings.Index(fwd, "0x")
+	if start < 0 {
+		return nil, false
+	}
+	rest := fwd[start+2:]
+	if end := strings.IndexByte(rest, ' '); end >= 0 {
+		rest = rest[:end]
+	}
+	b, err := hex.DecodeString(rest)
+	return b, err == nil
+}
+
+// VerifC09_MySQLSearchable: a searchable column. The stored value starts with a blind index; an equality search for
+// the same plaintext — given in clear or as a value the application already protected itself — is forwarded as a
+// comparison with exactly that index, and never carries the plaintext.
+func VerifC09_MySQLSearchable() {
+	store := verifKeys()
+	env := config.CryptoEnvelopeTypeAcraBlock
+	if verif.Choose("envelope", 0, 1) == 1 {
+		env = config.CryptoEnvelopeTypeAcraStruct
+	}
+	setting := &config.BasicColumnEncryptionSetting{Name: "secret", UsedClientID: "A", CryptoEnvelope: &env, Searchable: true}
+	h, ctx, parser := verifProxyWith(store, "A", setting)
+	lit := verifMarker("literal", 3)
+	obj, changed, err := h.queryObserverManager.OnQuery(ctx, emysql.NewOnQueryObjectFromQuery(verifFill("insert into t (id, secret, plain) values (1, '%s', 'keep')", lit), parser))
+	verif.Assert(err == nil && changed, "write-rewritten")
+	if err != nil || !changed {
+		return
+	}
+	stored, ok := verifStoredHexLiteral(obj.Query())
+	verif.Assert(ok, "protected-value-is-a-hex-literal")
+	if !ok {
+		return
+	}
+	verif.Reach("written")
+	var q string
+	if verif.Choose("term", 0, 1) == 0 {
+		q = verifFill("select id from t where secret = '%s'", lit)
+	} else {
+		// the application protected the search term itself (AcraWriter flow) with the column's envelope
+		rh := crypto.NewRegistryHandler(store)
+		hd, _ := crypto.GetHandlerByName(string(env))
+		term, err := rh.EncryptWithHandler(hd, []byte("A"), verifDup(lit))
+		if err != nil {
+			return
+		}
+		q = "select id from t where secret = X'" + hex.EncodeToString(term) + "'"
+	}
+	sobj, changed, err := h.queryObserverManager.OnQuery(ctx, emysql.NewOnQueryObjectFromQuery(q, parser))
+	verif.Reach("search-observed")
+	verif.Assert(err == nil && changed, "search-rewritten")
+	if err != nil || !changed {
+		return
+	}
+	fwd := sobj.Query()
+	verif.Assert(!verif.Contains([]byte(fwd), lit), "search-value-not-forwarded")
+	index, ok := verifHexNumber(fwd)
+	verif.Assert(ok, "search-compares-with-a-hex-number")
+	if ok {
+		verif.Assert(len(index) > 0 && len(index) <= len(stored) && verif.Eq(index, stored[:len(index)]), "search-index-is-the-stored-prefix")
+	}
 }
